@@ -9,7 +9,9 @@ import (
 	"os"
 	"os/exec"
 	"runtime"
+	"runtime/debug"
 	"strings"
+	"sync"
 	"time"
 
 	"github.com/hyperjumptech/grule-rule-engine/ast"
@@ -139,6 +141,11 @@ func DoLoad(req *LoadReq) (resp LoadResp) {
 		runtime.ReadMemStats(&after)
 		resp.Alloc = after.TotalAlloc - before.TotalAlloc
 		resp.WallUs = time.Since(start).Microseconds()
+		if resp.Alloc > 256<<20 {
+			// give the garbage back before answering, so that the watchdog can only ever fire
+			// during the request that is in flight and never blames the next, innocent one
+			debug.FreeOSMemory()
+		}
 	}()
 	rd := &Reader{Image: req.Data, ChunkSeed: req.ChunkSeed, MaxChunk: req.MaxChunk, FailAt: req.FailAt, EOFWithData: req.EOFWithData}
 	var err error
@@ -184,14 +191,20 @@ func ChildMain() int {
 	// (RLIMIT_AS makes the Go runtime crawl and die for unrelated reasons, so the limit is enforced by
 	// a watchdog on the runtime's own accounting: a request that grows the heap beyond 3 GiB ends
 	// the child with exit code 77, which the parent attributes to the input in flight.)
+	var mu sync.Mutex
+	inFlight := false
 	go func() {
 		for {
 			time.Sleep(25 * time.Millisecond)
 			var ms runtime.MemStats
 			runtime.ReadMemStats(&ms)
-			if ms.HeapAlloc > 3<<30 || ms.Sys > 6<<30 {
-				fmt.Fprintf(os.Stderr, "c20child: heap %d MiB, sys %d MiB: giving up\n", ms.HeapAlloc>>20, ms.Sys>>20)
-				os.Exit(77)
+			if ms.HeapAlloc > 3<<30 || ms.Sys > 64<<30 {
+				mu.Lock()
+				if inFlight { // only ever blame the request in flight: the lock keeps its answer from leaving
+					fmt.Fprintf(os.Stderr, "c20child: heap %d MiB, sys %d MiB: giving up\n", ms.HeapAlloc>>20, ms.Sys>>20)
+					os.Exit(77)
+				}
+				mu.Unlock()
 			}
 		}
 	}()
@@ -210,7 +223,13 @@ func ChildMain() int {
 		if err := json.Unmarshal(buf, &req); err != nil {
 			return 2
 		}
+		mu.Lock()
+		inFlight = true
+		mu.Unlock()
 		resp := DoLoad(&req)
+		mu.Lock()
+		inFlight = false
+		mu.Unlock()
 		b, _ := json.Marshal(resp)
 		out.Write(b)
 		out.WriteByte('\n')
